@@ -9,7 +9,7 @@ from ..core import Violation, guard
 from ..io_util import BudgetReader, ReadBudgetExceeded
 
 ID = 'C06'
-RULE = ('dumps: small version-2 and version-3 files (<= 14 records from scenario programs so that traces exist, timestamps increasing, decreasing or pairwise inverted; v3 with '
+RULE = ('dumps: small version-2 and version-3 files (<= 14 records from scenario programs so that traces exist, timestamps increasing, decreasing or pairwise inverted, half of the dumps with a record whose argument words spell a section tag and a size; v3 with '
         'fillers, 1..3 chunks (the last one sometimes with 1..63 bytes of an unfinished record counted in its size), <= 4 blocks incl. logs) x cut offsets: quick = every structural boundary (sections, chunk headers, blocks, record and record-field boundaries) +-1 and 40 '
         'pseudo-random offsets; thorough = EVERY offset 0..len of every generated dump. The reader counts read calls '
         'and raises after 8*len+4096 (healthy parsers need <= ~2*len), which turns "spins at end-of-file" into a '
@@ -33,6 +33,12 @@ REC_FIELDS = [8, 32, 40, 48, 52, 56]     # field boundaries inside a 64-byte rec
 def stream_events(spec):
     progs = [SC.expand_program(i, ops, partition=True) for i, ops in enumerate(spec['programs'])]
     evs = SC.merge(progs, spec['schedule'])[:spec['max_events']]
+    if spec.get('tagwords') is not None:
+        # a record whose argument words spell a section tag followed by a plausible size (pread(fd, buf, 0x1e00, 64)): inside a
+        # record they are argument words, whatever a truncated file makes a reader look for
+        words = [[0x1e00, 64, 0x1e00, 128], [3, 0x1e00, 64, 0], [0x1d00, 32, 0x1e00, 64], [0x2000, 0x1e00, 128, 0]][spec['tagwords'] % 4]
+        data = b''.join(x.to_bytes(8, 'little') for x in words)
+        evs.insert(spec['tagwords'] % (len(evs) + 1), [SC.PROGRAM_TIDS[0], 'BSC_pread_extended_info', 0, data])
     return evs
 
 
@@ -239,7 +245,8 @@ PROPS = {'cut': prop_cut, 'count': prop_count, 'cli_count': prop_cli_count, 'fre
 
 def spec_strategy(version):
     base = {'programs': SC.programs_strategy(1, 2, 3), 'schedule': st.lists(st.integers(0, 1), max_size=20),
-            'max_events': st.integers(2, 14), 'version': st.just(version), 'ts_mode': st.sampled_from([0, 0, 1, 2])}
+            'max_events': st.integers(2, 14), 'version': st.just(version), 'ts_mode': st.sampled_from([0, 0, 1, 2]),
+            'tagwords': st.one_of(st.none(), st.integers(0, 7))}
     if version == 2:
         base['pad'] = st.sampled_from([0, 0, 3, 8, 64])
     else:
